@@ -397,3 +397,32 @@ package diff
 //@ safety
 //@ modifies nothing
 //@ ensures result != nil && vs_fresh(result) && result.Field == forLocation
+
+//@ func JSONMarshal
+//@ props C13 C15
+//@ trusted
+//@ modifies nothing
+
+//@ func prettyprint
+//@ props C13 C15
+//@ trusted
+//@ modifies nothing
+
+//@ func SpecDifferences.reportChanges
+//@ props C13 C15
+//@ trusted
+//@ modifies nothing
+//@ ensures result != nil
+
+//@ func (*SpecDifferences).ReportCompatibility
+//@ props C13 C15
+//@ modifies nothing
+//@ requires sd != nil
+//@ ensures result1 == nil
+//@ ensures (result2 != nil) == ((*sd).BreakingChangeCount() > 0)
+
+//@ func SpecDifferences.ReportAllDiffs
+//@ props C13 C15
+//@ modifies nothing
+//@ ensures !fmtJSON ==> result1 == nil && (result2 != nil) == (sd.BreakingChangeCount() > 0)
+//@ ensures @C15 fmtJSON && result1 == nil ==> (result2 != nil) == (sd.BreakingChangeCount() > 0)
